@@ -9,9 +9,10 @@ import (
 
 // Property is the registration record of one property's rules.
 type Property struct {
-	ID      string
-	Run     func(c *an.Ctx)
-	Explain an.Explanation
+	ID        string
+	Run       func(c *an.Ctx)
+	Explain   an.Explanation
+	Technique string
 }
 
 var registry = map[string]*Property{}
